@@ -52,7 +52,8 @@ def one_case(seed):
         m.setdefault('files', {})['default.yaml'] = 'whitelist: ["%s"]\n' % wl_extra
         p.write(m)
         keep = rnd.random() < .25
-        hostenv = {'LEAK_CANARY': 'host-secret', wl_extra: 'whitelisted-value', 'VA': 'host-VA-must-not-leak'}
+        hostenv = {'LEAK_CANARY': 'host-secret', wl_extra: 'whitelisted-value', 'VA': 'host-VA-must-not-leak',
+                   'wl_canary': 'case-twin-of-a-whitelisted-name', 'Home': 'case-twin-of-HOME', 'WL_CANARY_2': 'prefix-twin'}
         rc, out = p.bob('dev', 'r0', *(['-E'] if keep else []), *defs, env=hostenv)
         log.append('bob dev r0 %s with %d definitions' % ('-E' if keep else '', len(defs)))
         if rc != 0: return None, ['(project does not build: %s)' % out[-200:].replace('\n', ' ')]
@@ -73,7 +74,8 @@ def one_case(seed):
                     elif v in env and not keep:
                         return {'kind': 'undeclared-variable-visible', 'package': name, 'step': step, 'variable': v, 'value': env[v], 'declared': sorted(want), 'history': log}, log
                 if not keep:
-                    if 'LEAK_CANARY' in env: return {'kind': 'host-variable-leaked', 'package': name, 'step': step, 'history': log}, log
+                    for canary in ('LEAK_CANARY', 'wl_canary', 'Home', 'WL_CANARY_2'):
+                        if canary in env: return {'kind': 'host-variable-leaked', 'variable': canary, 'package': name, 'step': step, 'history': log}, log
                     if env.get(wl_extra) != 'whitelisted-value': return {'kind': 'whitelisted-host-variable-missing', 'package': name, 'step': step, 'history': log}, log
                     extra = [k for k in env if k not in want and k not in BOBVARS and k != wl_extra and not k.startswith('BOB_') and k not in ('HOME', 'TERM', 'USER', 'LANG', 'LOGNAME', 'SHELL', 'TMPDIR', 'TEMP', 'TMP', 'PATHEXT', 'SSH_AGENT_PID', 'SSH_AUTH_SOCK', 'http_proxy', 'https_proxy', 'ftp_proxy', 'no_proxy')]
                     if extra: return {'kind': 'unexpected-variable-visible', 'package': name, 'step': step, 'variables': extra[:5], 'history': log}, log
@@ -104,7 +106,8 @@ def one_case(seed):
                 extra = [v for v in seen if v not in fpvars]
                 if extra: return {'kind': 'fingerprint-script-sees-undeclared-variable', 'package': fpn, 'variable': extra[0], 'fingerprintVars': fpvars, 'history': log}, log
                 return {'kind': 'fingerprint-variables-wrong', 'package': fpn, 'observed': seen, 'expected_one_of': cands, 'history': log}, log
-            if 'LEAK_CANARY' in env: return {'kind': 'host-variable-leaked', 'package': fpn, 'step': 'fingerprint', 'history': log}, log
+            for canary in ('LEAK_CANARY', 'wl_canary', 'Home', 'WL_CANARY_2'):
+                if canary in env: return {'kind': 'host-variable-leaked', 'variable': canary, 'package': fpn, 'step': 'fingerprint', 'history': log}, log
         return None, log
     except Exception as ex:
         return None, ['harness problem: %r %s' % (ex, traceback.format_exc()[-400:])]
